@@ -88,23 +88,61 @@ def layers_of_var(fnode, var, _depth=0):
                         out.append(Layer('literal', '{%s}' % t.slice.value, st, [t.slice.value], {t.slice.value: st.value}))
                     else:
                         out.append(Layer('source', '[%s]' % norm(t.slice), st))
+    return _expand_sources(fnode, out, var, _depth)
+
+
+def layers_of_value(fnode, expr):
+    """Ordered layers of a dict-valued *expression* of the function: a name / attribute is looked up (layers_of_var), a
+    display or dict(...) call is taken apart where it stands (``f(**{**a, **b})``, ``inject(g, dict(a, **b))``)."""
+    if isinstance(expr, (ast.Name, ast.Attribute)):
+        return layers_of_var(fnode, norm(expr))
+    return _expand_sources(fnode, layers_of_expr(expr), None, 0)
+
+
+def _expand_sources(fnode, out, var, _depth):
     # a source that is itself a local built once in this function (``builtins = {...}; d = dict(builtins)``) is
-    # replaced by that local's own layers
+    # replaced by that local's own layers; a local that merely names another object (``res = self.resources;
+    # d.update(res)``) stands for that object
     if _depth < 3:
+        all_stmts = stmts_of(fnode)
+
+        def single_assign(name):
+            asg = [st for st in all_stmts if isinstance(st, ast.Assign) and any(norm(t) == name for t in st.targets)]
+            other = [st for st in all_stmts if isinstance(st, (ast.AugAssign, ast.For, ast.AnnAssign)) and
+                     name in [n.id for n in ast.walk(st.target) if isinstance(n, ast.Name)]]
+            unpack = [st for st in all_stmts if isinstance(st, ast.Assign) and any(isinstance(t, (ast.Tuple, ast.List)) and
+                      name in [n.id for n in ast.walk(t) if isinstance(n, ast.Name)] for t in st.targets)]
+            return asg[0] if len(asg) == 1 and not other and not unpack and len(asg[0].targets) == 1 else None
         expanded = []
         for l in out:
             if l.kind == 'source' and isinstance(l.node, ast.Name) and l.node.id != var:
-                asg = [st for st in stmts_of(fnode) if isinstance(st, ast.Assign) and any(norm(t) == l.node.id for t in st.targets)]
-                if len(asg) == 1 and isinstance(asg[0].value, (ast.Dict, ast.Call)) and \
-                        (isinstance(asg[0].value, ast.Dict) or norm(asg[0].value.func) == 'dict'):
+                node = l.node
+                for _ in range(3):
+                    a = single_assign(node.id) if isinstance(node, ast.Name) else None
+                    if a is not None and _plain_ref(a.value) and norm(a.value) != var:
+                        node = a.value
+                    else:
+                        break
+                a = single_assign(node.id) if isinstance(node, ast.Name) else None
+                if a is not None and (isinstance(a.value, ast.Dict) or (isinstance(a.value, ast.Call) and norm(a.value.func) == 'dict')):
                     try:
-                        expanded.extend(layers_of_var(fnode, l.node.id, _depth + 1))
+                        expanded.extend(layers_of_var(fnode, node.id, _depth + 1))
                         continue
                     except AnalysisError:
                         pass
+                if node is not l.node:
+                    expanded.append(Layer('source', norm(node), node))
+                    continue
             expanded.append(l)
         out = expanded
     return out
+
+
+def _plain_ref(e):
+    """A name or attribute chain (no call, no subscript): evaluating it yields an existing object."""
+    while isinstance(e, ast.Attribute):
+        e = e.value
+    return isinstance(e, ast.Name)
 
 
 def index_of(layers, pred):
